@@ -1193,7 +1193,31 @@ const BAD_IN_DATA: &[&str] = &[
 
 fn planted_cases(tier: &str, rng: &mut Rng) -> Vec<Case> {
     let mut out = Vec::new();
-    for (bi, base) in BASES.iter().enumerate() {
+    // the fixed base templates, and a few valid templates drawn from the grammar (a sample of the positions)
+    let mut bases: Vec<String> = BASES.iter().map(|s| s.to_string()).collect();
+    let n_fixed = bases.len();
+    let (gt, _) = grammar_sources(rng, if tier == "quick" { 30 } else { 200 });
+    let want = if tier == "quick" { 8 } else { 40 };
+    for t in gt {
+        // (no white-space control markers: text inserted in front of a trimming tag changes what the tag strips)
+        if ["{%-", "-%}", "{{-", "-}}", "{#-", "-#}"].iter().any(|m| t.contains(m)) {
+            continue;
+        }
+        if bases.len() - n_fixed >= want || t.len() >= 400 || machinery::parse(&t, "main", SyntaxConfig::default(), WhitespaceConfig::default()).is_err() {
+            continue;
+        }
+        // every line break has to lie in template data (the horizontal insertion point is the start of a line)
+        let data: Vec<(usize, usize)> = machinery::tokenize(&t, false, SyntaxConfig::default(), WhitespaceConfig::default())
+            .filter_map(|x| x.ok())
+            .filter(|(tok, _)| matches!(tok, machinery::Token::TemplateData(_)))
+            .map(|(_, sp)| (sp.start_offset as usize, sp.end_offset as usize))
+            .collect();
+        if t.bytes().enumerate().all(|(o, b)| b != b'\n' || data.iter().any(|(a, e)| *a <= o && o < *e)) {
+            bases.push(t);
+        }
+    }
+    for (bi, base) in bases.iter().enumerate() {
+        let base: &str = base;
         let toks: Vec<(bool, Span)> = machinery::tokenize(base, false, SyntaxConfig::default(), WhitespaceConfig::default())
             .map(|t| {
                 let (tok, span) = t.expect("base template must tokenize");
@@ -1228,6 +1252,17 @@ fn planted_cases(tier: &str, rng: &mut Rng) -> Vec<Case> {
         }
         positions.sort();
         positions.dedup();
+        if bi >= n_fixed {
+            // grammar-drawn base: a sample of 14 positions
+            let mut keep = Vec::new();
+            for _ in 0..14 {
+                if !positions.is_empty() {
+                    keep.push(positions.swap_remove(rng.below(positions.len() as u64) as usize));
+                }
+            }
+            keep.sort();
+            positions = keep;
+        }
         for (pi, (off, ins, kind)) in positions.iter().enumerate() {
             let text = if *kind == "trunc" {
                 base[..*off].to_string()
@@ -1448,6 +1483,7 @@ fn build_case(c: &Case, vi: usize, hi: usize) -> Built {
 ///   p pass-through custom formatter (`set_formatter(escape_formatter)`)
 ///   n custom formatter that refuses `none` and the string "REFUSED"
 ///   a auto-escape callback choosing a custom (unknown) format for the shifted template
+///   j every template auto-escaped as JSON, u as HTML
 ///   k keep_trailing_newline       t trim_blocks + lstrip_blocks
 ///   c custom delimiters `<% %>`, `« »`, `<# #>` (the templates are rewritten accordingly)
 ///   s strict, m semi-strict, h chainable undefined behaviour
@@ -1458,7 +1494,7 @@ fn build_case(c: &Case, vi: usize, hi: usize) -> Built {
 ///   1 Environment::render_str (name `<string>`)      2 template_from_named_str
 ///   3 add_template_owned                             4 render_named_str
 ///   5 template_from_str (name `<string>`)
-const CONFIGS: &[&str] = &["d", "p", "n", "x", "a", "k", "t", "c", "s", "m", "h", "r", "w", "l", "1", "2", "3", "4", "5"];
+const CONFIGS: &[&str] = &["d", "p", "n", "x", "a", "j", "u", "k", "t", "c", "s", "m", "h", "r", "w", "l", "1", "2", "3", "4", "5"];
 const ENTRY_CFGS: &[&str] = &["1", "2", "3", "4", "5"];
 
 fn custom_syntax_case(c: &Case) -> Case {
@@ -1519,6 +1555,9 @@ fn run_case(c0: &Case, cfg: &str, vi: usize, hi: usize) -> String {
                     }
                 });
             }
+            // every template auto-escaped as JSON / as HTML: every print goes through the serializer / the escaper
+            "j" => env.set_auto_escape_callback(|_| minijinja::AutoEscape::Json),
+            "u" => env.set_auto_escape_callback(|_| minijinja::AutoEscape::Html),
             "r" => env.set_recursion_limit(1),
             "k" => env.set_keep_trailing_newline(true),
             "t" => {
@@ -2110,17 +2149,41 @@ fn all_cases(tier: &str, rng: &mut Rng) -> Vec<Case> {
 /// inserted in data state at the very start of the template).
 fn grammar_cases(tier: &str, rng: &mut Rng) -> Vec<Case> {
     let (gt, _) = grammar_sources(rng, if tier == "quick" { 240 } else { 1200 });
-    gt.iter()
-        .enumerate()
-        .map(|(i, t)| Case {
-            id: format!("gram_{}", i),
-            templates: vec![("main".into(), format!("@@{}", t))],
-            main: "main".into(),
-            shifted: "main".into(),
-            flags: if i % 2 == 0 { "s".into() } else { String::new() },
-            class: "planted",
-        })
-        .collect()
+    gt.iter().enumerate().map(|(i, t)| grammar_case(i, t)).collect()
+}
+
+/// the drawn template as the main template, as an included one, as the parent of a child template or as the
+/// library a macro is imported from and called (every fourth each): the failing construct then lies in a
+/// template other than the one that is rendered, behind an include / block / macro frame
+fn grammar_case(i: usize, t: &str) -> Case {
+    let marked = format!("@@{}", t);
+    let (templates, shifted): (Vec<(String, String)>, &str) = match i % 4 {
+        0 | 1 => (vec![("main".into(), marked)], "main"),
+        2 => (vec![("main".into(), "top\n{% include 'lib' %}\nbottom".into()), ("lib".into(), marked)], "lib"),
+        _ => {
+            if t.contains("extends") {
+                (vec![("main".into(), marked)], "main")
+            } else if t.contains("{% macro mac") || t.contains("macro\n") {
+                (
+                    vec![
+                        ("main".into(), "{% import 'lib' as lib %}\n{{ lib.mac0() }}{{ lib.mac1(1) }}{{ lib.mac2(1, 2) }}".into()),
+                        ("lib".into(), marked),
+                    ],
+                    "lib",
+                )
+            } else {
+                (vec![("main".into(), "{% extends 'lib' %}\n{% block blk1 %}child {{ super() }}{% endblock %}".into()), ("lib".into(), marked)], "lib")
+            }
+        }
+    };
+    Case {
+        id: format!("gram_{}", i),
+        templates,
+        main: "main".into(),
+        shifted: shifted.into(),
+        flags: if (i / 4) % 2 == 0 { "s".into() } else { String::new() },
+        class: "planted",
+    }
 }
 
 /// which (cfg, v, h) variants a case gets.  Fixed-site cases: the whole shift grid in the default
@@ -2472,20 +2535,23 @@ fn main() {
                 writeln!(out, "ast {}\t{}", Src::lit(src).spec(), run_ast(src)).unwrap();
                 writeln!(out, "stm {}\t{}", Src::lit(src).spec(), run_stm(src)).unwrap();
                 writeln!(out, "cga g {}\t{}", Src::lit(src).spec(), run_cga(src)).unwrap();
-                let c = Case {
-                    id: format!("gram_{}", i),
-                    templates: vec![("main".into(), format!("@@{}", src))],
-                    main: "main".into(),
-                    shifted: "main".into(),
-                    flags: if i % 2 == 0 { "s".into() } else { String::new() },
-                    class: "planted",
-                };
+                let c = grammar_case(i, src);
                 for (vi, hi) in [(0, 0), (1, 0), (3, 2), (2, 1)] {
                     writeln!(out, "err {} {} d {} {}\t{}", c.id, c.class, vi, hi, run_case(&c, "d", vi, hi)).unwrap();
                 }
             }
             for src in &ge {
                 writeln!(out, "cge {}\t{}", Src::lit(src).spec(), run_cge(src)).unwrap();
+            }
+            // syntax errors planted into grammar-drawn bases
+            let n_fixed = BASES.len();
+            for c in planted_cases("thorough", &mut rng) {
+                let bi: usize = c.id.split('_').nth(1).and_then(|x| x.parse().ok()).unwrap_or(0);
+                if bi >= n_fixed {
+                    for (cfg, vi, hi) in [("d", 0, 0), ("d", 1, 0), ("d", 3, 2), ("d", 2, 1), ("k", 0, 0), ("k", 1, 1), ("c", 0, 0), ("c", 3, 2)] {
+                        writeln!(out, "err {} {} {} {} {}\t{}", c.id, c.class, cfg, vi, hi, run_case(&c, cfg, vi, hi)).unwrap();
+                    }
+                }
             }
         }
         Some("one") => {
